@@ -681,3 +681,70 @@ def c12_errors(obs, case=None):
                     later_cp = [i for i, x in enumerate(obs.msgs[:n]) if x.command == "checkpoint" and i > w_last]
                     tags.append("failed-status-reached-the-plan-after-the-wait-on-its-group" + ("-and-a-later-checkpoint" if later_cp else ""))
     return sorted(set(tags))
+
+
+# ------------------------------------------------------------------------------------------------ responses (C13)
+def c13_responses(obs, case=None):
+    tags = []
+    if obs.stuck:
+        return ["engine-stuck"]
+    lab = obs.lab
+    status_for = defaultdict(list)
+    for (j, dev, op, args), lm in zip(obs.ledger, obs.ledger_msg):
+        if lm is not None and j in lab.status_of_call:
+            status_for[id(lm)].append(lab.status_of_call[j])
+    starts = [d["uid"] for n, d in obs.docs if n == "start"]
+    nopen = 0
+    executed = {id(m) for m in obs.msgs}
+    for m, resp, nm in obs.responses:
+        c = m.command
+        if id(m) not in executed:
+            continue
+        how = "got-None" if resp is None else "got-something-else"
+        if c == "open_run":
+            if not isinstance(resp, str) or nopen >= len(starts) or resp != starts[nopen]:
+                tags.append(f"open_run-response-is-not-the-new-run's-uid:{how}")
+            nopen += 1
+        elif c == "read":
+            keys = set(m.obj.describe().keys()) if hasattr(m.obj, "describe") else None
+            if not isinstance(resp, dict) or (keys is not None and set(resp.keys()) != keys):
+                tags.append(f"read-response-is-not-the-reading-of-that-object:{how}")
+        elif c in ("set", "trigger", "kickoff", "complete"):
+            if not any(resp is st for st in status_for.get(id(m), [])):
+                tags.append(f"{c}-response-is-not-the-status-returned-by-the-device:{how}")
+        elif c == "wait":
+            if not isinstance(resp, bool):
+                tags.append(f"wait-response-is-not-the-done-flag:{how}")
+        elif c in ("null", "checkpoint", "clear_checkpoint", "sleep", "create"):
+            if resp is not None:
+                tags.append(f"{c}-received-a-response-meant-for-another-message")
+        elif c == "subscribe":
+            if not isinstance(resp, int):
+                tags.append(f"subscribe-response-is-not-a-token:{how}")
+        elif c in ("stage", "unstage"):
+            ok = (isinstance(resp, list) and m.obj in resp) or any(resp is st for st in status_for.get(id(m), []))
+            if not ok:
+                tags.append(f"{c}-response-is-not-what-the-device-returned:{how}")
+    first = obs.calls[0]
+    if len(obs.calls) == 1 and first["outcome"] == "ret":
+        val = first["value"]
+        if hasattr(val, "run_start_uids"):
+            if tuple(val.run_start_uids) != tuple(starts):
+                tags.append("result-run_start_uids-are-not-the-opened-runs-in-order")
+            pe = obs.plan_end
+            if pe is not None and pe[0] == "return" and val.plan_result != pe[1]:
+                tags.append("result-plan_result-is-not-the-plan's-return-value")
+            if val.exit_status != "success":
+                tags.append("result-exit_status-not-success-after-normal-completion")
+        elif tuple(val) != tuple(starts):
+            tags.append("call-did-not-return-the-uids-of-the-opened-runs-in-order")
+    inner = obs.devices.get("inner_log") if isinstance(obs.devices, dict) else None
+    if inner:
+        for m, r in inner:
+            if id(m) not in executed and r is not None:
+                tags.append("dropped-message-received-a-response-meant-for-another-message")
+    for c in obs.calls:
+        if c["api"] in ("call", "resume") and c["outcome"] == "exc" and c["exc_type"] not in ("RunEngineInterrupted",):
+            if c["exc_type"] == "TransitionError" and c["state"] == "suspending":
+                tags.append("!engine-left-in-suspending-by-late-suspension")
+    return sorted(set(tags))
